@@ -3314,8 +3314,6 @@ class quantized_hswish(quantized_bits):  # pylint: disable=invalid-name
             else self.integer
         ),
     )
-    assert isinstance(integer_bits, int)
-
     flags = [
         str(self.bits),
         integer_bits,
@@ -3324,8 +3322,6 @@ class quantized_hswish(quantized_bits):  # pylint: disable=invalid-name
         "relu_upper_bound=" + str(self.relu_upper_bound),
     ]
 
-    if not self.keep_negative:
-      flags.append("keep_negative=False")
     if self.alpha:
       alpha = str(self.alpha)
       if isinstance(self.alpha, six.string_types):
